@@ -33,6 +33,7 @@ type checkOpts struct {
 	updateLock                         bool
 	only                               string
 	keep                               bool
+	verbose                            bool
 }
 
 func cmdCheck(args []string) int {
@@ -46,6 +47,7 @@ func cmdCheck(args []string) int {
 	fs.BoolVar(&o.updateLock, "update-lock", false, "rewrite this property's entry in obligations.lock (development only)")
 	fs.StringVar(&o.only, "only", "", "only functions matching this substring (development)")
 	fs.BoolVar(&o.keep, "keep", false, "keep SMT scripts")
+	fs.BoolVar(&o.verbose, "v", false, "print every obligation")
 	fs.Parse(args)
 	if o.contracts == "" {
 		o.contracts = filepath.Join(o.repo, "zygo", "zz_contracts_verif.go")
@@ -163,6 +165,11 @@ func runCheck(o checkOpts) int {
 	}
 	dischargeAll(obls, tmp, budget, all, 16)
 
+	if o.verbose {
+		for _, ob := range obls {
+			fmt.Printf("  %-8s %-10s %6.2fs %s\n", ob.Status, backendOf(ob), ob.TimeS, ob.Name)
+		}
+	}
 	// classify
 	byName := map[string]*Obligation{}
 	nCanary, nDischarged, nClaimed := 0, 0, 0
@@ -305,6 +312,11 @@ func runCheck(o checkOpts) int {
 		fmt.Printf("VIOLATION property=%s replay=%s obligation=%s%s\n", prop, rp, f.o.Name, suffix)
 	}
 
+	// thorough tier: must-fail corpus (weakness of the machinery is reported, never a violation)
+	var mutRes []MutantResult
+	if o.tier == "thorough" && violations == 0 && o.only == "" {
+		mutRes = runMutants(o)
+	}
 	// evidence
 	var samples []map[string]interface{}
 	for i, ob := range obls {
@@ -352,6 +364,7 @@ func runCheck(o checkOpts) int {
 			"constructs_outside_modelled_subset": unsupported,
 			"known_findings_reported": kfLines,
 			"scan": scanInfo,
+			"mutants": mutRes,
 			"integers": "64/32/16/8-bit two's-complement bit-vectors (machine arithmetic, wrapping); float64 = SMT FloatingPoint(11,53) RNE; int->float conversion abstracted as an uninterpreted finite-valued function",
 			"explanation": "Every obligation is generated from the go/ssa form of /repo's current working tree (build tag verif) and the contract comments in zygo/zz_contracts_verif.go; callers are checked against callee contracts, never callee bodies.",
 		},
